@@ -312,19 +312,24 @@ func (r *uciRun) windows() ([]*goWindow, []string) {
 				problems = append(problems, fmt.Sprintf("bestmove %s at step %d before any go was received", mv, e.Step))
 				continue
 			}
+			// surely superseded: a superseding command after w, and a further command consumed after that
+			// one (so the loop has finished handling it)
+			surely := func(w *goWindow) (bool, string) {
+				for i := w.seq + 1; i < len(consumed); i++ {
+					if strings.HasPrefix(consumed[i], "position") || strings.HasPrefix(consumed[i], "go") || consumed[i] == "ucinewgame" {
+						if i+1 < len(consumed) {
+							return true, consumed[i]
+						}
+					}
+				}
+				return false, ""
+			}
 			var target *goWindow
 			for _, w := range ws {
 				if len(w.answers) > 0 {
 					continue
 				}
-				// surely superseded: a superseding command after w, and a further command after that one
-				superseded := false
-				for i := w.seq + 1; i < len(consumed) && !superseded; i++ {
-					if strings.HasPrefix(consumed[i], "position") || strings.HasPrefix(consumed[i], "go") || consumed[i] == "ucinewgame" {
-						superseded = i+1 < len(consumed)
-					}
-				}
-				if superseded {
+				if superseded, _ := surely(w); superseded {
 					continue
 				}
 				if ok, _ := legalAnswer(w.game, mv); !ok && mv != "0000" {
@@ -334,7 +339,13 @@ func (r *uciRun) windows() ([]*goWindow, []string) {
 				break
 			}
 			if target == nil {
-				target = ws[len(ws)-1] // fits no open go: shows up there as a second or an illegal answer
+				last := ws[len(ws)-1]
+				if sup, by := surely(last); sup && len(last.answers) == 0 {
+					// every go is answered or superseded: this is the answer of a search the driver had been told to abandon
+					problems = append(problems, fmt.Sprintf("bestmove %s at step %d answers '%s', which '%s' had superseded before (and the driver had gone on to the next command)", mv, e.Step, last.line, by))
+					continue
+				}
+				target = last // fits no open go: shows up there as a second or an illegal answer
 			}
 			target.answers = append(target.answers, mv)
 			target.answerAt = append(target.answerAt, e.Step)
